@@ -221,23 +221,52 @@ Definition fe_exe (c : cfg) (cache : option bytes) (v : pview) : outcome bytes *
   end.
 
 (* ------------------------------------------------ a sequence of public calls on one Process object *)
-Inductive op := OpName | OpExe | OpCmdline | OpEnviron | OpCwd.
+(* what the object remembers between calls: self._exe (read back by exe()) and self._name
+   (written by name(); on POSIX it is read only for error messages and by __str__, never by
+   name() itself -- "if WINDOWS and self._name is not None") *)
+Record fstate := { s_exe : option bytes; s_name : option bytes }.
+Definition st0 : fstate := {| s_exe := None; s_name := None |}.
+
+Inductive op := OpName | OpExe | OpCmdline | OpEnviron | OpCwd
+              | OpRepr            (* str(p) / repr(p): calls name() inside oneshot() *)
+              | OpAsDictName.     (* p.as_dict(attrs=['name'])['name'], also what process_iter(['name']) stores in .info *)
 Inductive res :=
 | RBytes (o : outcome bytes)
 | RList (o : outcome (list bytes))
-| RDict (o : outcome (list (bytes * bytes))).
+| RDict (o : outcome (list (bytes * bytes)))
+| ROpt (o : outcome (option bytes))
+| RUnit.
 
-Definition do_op (c : cfg) (cache : option bytes) (v : pview) (o : op) : res * option bytes :=
-  match o with
-  | OpName => (RBytes (fe_name c v), cache)
-  | OpExe => let '(r, cache') := fe_exe c cache v in (RBytes r, cache')
-  | OpCmdline => (RList (pl_cmdline c v), cache)
-  | OpEnviron => (RDict (pl_environ c v), cache)
-  | OpCwd => (RBytes (pl_cwd v), cache)
+Definition remember_name (st : fstate) (r : outcome bytes) : fstate :=
+  match r with
+  | Val n => {| s_exe := s_exe st; s_name := Some n |}
+  | _ => st
+  end.
+(* name() as a step: the answer is computed from the kernel view alone, then stored *)
+Definition fe_name_st (c : cfg) (st : fstate) (v : pview) : outcome bytes * fstate :=
+  let r := fe_name c v in (r, remember_name st r).
+(* as_dict: AccessDenied / ZombieProcess become ad_value (None) *)
+Definition as_dict_value (r : outcome bytes) : outcome (option bytes) :=
+  match r with
+  | Val n => Val (Some n)
+  | Exc AccessDenied | Exc ZombieProcess => Val None
+  | Exc e => Exc e
+  | OutOfModel => OutOfModel
   end.
 
-Fixpoint run_ops (c : cfg) (cache : option bytes) (steps : list (pview * op)) : list res :=
+Definition do_op (c : cfg) (st : fstate) (v : pview) (o : op) : res * fstate :=
+  match o with
+  | OpName => let '(r, st') := fe_name_st c st v in (RBytes r, st')
+  | OpExe => let '(r, e') := fe_exe c (s_exe st) v in (RBytes r, {| s_exe := e'; s_name := s_name st |})
+  | OpCmdline => (RList (pl_cmdline c v), st)
+  | OpEnviron => (RDict (pl_environ c v), st)
+  | OpCwd => (RBytes (pl_cwd v), st)
+  | OpRepr => let '(_, st') := fe_name_st c st v in (RUnit, st')
+  | OpAsDictName => let '(r, st') := fe_name_st c st v in (ROpt (as_dict_value r), st')
+  end.
+
+Fixpoint run_ops (c : cfg) (st : fstate) (steps : list (pview * op)) : list res :=
   match steps with
   | [] => []
-  | (v, o) :: r => let '(x, cache') := do_op c cache v o in x :: run_ops c cache' r
+  | (v, o) :: r => let '(x, st') := do_op c st v o in x :: run_ops c st' r
   end.
